@@ -25,7 +25,24 @@ def _c07_item(d, it):
     return {"target": e[0], "implementation_triggered": e[1]}
 
 
+def _hist_item(d, it):
+    try:
+        return d["steps"][it]
+    except Exception:
+        return it
+
+
 PROPS = {
+    "C01": {
+        "modules": ["Properties.C01"],
+        "theorems": [],
+        "describe_item": _hist_item,
+        "trusted": ["jwx (JWT parsing, signature verification), encoding/json and net/url.Parse sit behind descriptors supplied by the harness"],
+        "assumptions": [],
+    },
+    "C03": {"modules": ["Properties.C01"], "theorems": [], "describe_item": _hist_item},
+    "C13": {"modules": ["Properties.C01"], "theorems": [], "describe_item": _hist_item},
+    "C15": {"modules": ["Properties.C01"], "theorems": [], "describe_item": _hist_item},
     "C07": {
         "modules": ["Properties.C07"],
         "theorems": ["C07_trigger_spec", "C07_query_irrelevant", "C07_path_split"],
